@@ -16,12 +16,14 @@ TOL = 1e-8
 
 
 def _limits(a, R):
-    lo = -math.inf if a["loInf"] else float(qval(a["lo"]))
-    hi = math.inf if a["hiInf"] else float(qval(a["hi"]))
+    lims = a["lims"]
+    lo = [-math.inf if lm["loInf"] else float(qval(lm["lo"])) for lm in lims]
+    hi = [math.inf if lm["hiInf"] else float(qval(lm["hi"])) for lm in lims]
     if a["lmode"] == "array":
-        return A([[lo]] * R), A([[hi]] * R)
-    kw_lo = None if a["loInf"] and not a["hiInf"] else lo
-    kw_hi = None if a["hiInf"] and not a["loInf"] else hi
+        return A([[x] for x in lo]), A([[x] for x in hi])
+    lm = lims[0]
+    kw_lo = None if lm["loInf"] and not lm["hiInf"] else lo[0]
+    kw_hi = None if lm["hiInf"] and not lm["loInf"] else hi[0]
     return kw_lo, kw_hi
 
 
